@@ -37,16 +37,16 @@ CONSTANTS ALG,         \* declared decorator: "no" "inf" "lfu" "lru" "mru" "rr"
                        \* unhashable: the dictionary lookup fails and the rest of the wrapper still runs)
 
 (* argument alphabet - identical to harness/cache_driver.alphabet(NX) *)
-NArgs   == NX + 5 + (IF SAFE THEN 1 ELSE 0)
+NArgs   == NX + 5 + (IF SAFE THEN 2 ELSE 0)
 KeyOf   == [a \in 1..NArgs |->
               IF a <= NX THEN a
               ELSE IF a = NX + 1 THEN 1 ELSE IF a = NX + 2 THEN 2 ELSE IF a = NX + 3 THEN 1
-              ELSE IF a = NX + 4 THEN NX + 1 ELSE IF a = NX + 5 THEN NX + 2 ELSE 1]
+              ELSE IF a = NX + 4 THEN NX + 1 ELSE IF a = NX + 5 THEN NX + 2 ELSE IF a = NX + 6 THEN 1 ELSE NX + 1]
 KindOf  == [a \in 1..NArgs |->
-              IF a <= NX + 3 THEN "ok" ELSE IF a <= NX + 5 THEN "raise" ELSE "unkey"]
+              IF a <= NX + 3 THEN "ok" ELSE IF a <= NX + 5 THEN "raise" ELSE IF a = NX + 6 THEN "unkey" ELSE "unkeyraise"]
 ValOfKey(k) == IF k <= NX THEN 1000 + 10 * k ELSE -1
 FOf     == [a \in 1..NArgs |->
-              IF KindOf[a] = "ok" THEN ValOfKey(KeyOf[a]) ELSE IF KindOf[a] = "raise" THEN 0 ELSE 1410]
+              IF KindOf[a] = "ok" THEN ValOfKey(KeyOf[a]) ELSE IF KindOf[a] \in {"raise", "unkeyraise"} THEN 0 ELSE 1410]
 NK      == NX + 3
 NA      == 2
 
@@ -281,7 +281,11 @@ CallNo(a) ==   \* no_cache: look in archive, compute, dump everything, clear
 
 CallUnkey(a) ==  \* safe decorators: arguments that cannot be keyed -> plain evaluation
   /\ SAFE
-  /\ IF EffAlg = "no" /\ Archived(cur) /\ "safe_no_load_outside_try" \in Deviations
+  /\ IF KindOf[a] = "unkeyraise"         \* the plain evaluation raises: nothing has been counted or changed
+     THEN /\ UNCHANGED <<mem, archs, cur, swap, stats, queue, refc, ucnt, uord>>
+          /\ Finish(Event("call", Ret(a, 0, "same", <<a>>)))
+     ELSE
+     IF EffAlg = "no" /\ Archived(cur) /\ "safe_no_load_outside_try" \in Deviations
      THEN /\ UNCHANGED <<mem, archs, cur, swap, stats, queue, refc, ucnt, uord>>
           /\ Finish(Event("call", Ret(a, 0, "TypeError", <<>>)))
      ELSE /\ stats' = Bump(stats, 2, 1)
@@ -292,7 +296,7 @@ CallUnkey(a) ==  \* safe decorators: arguments that cannot be keyed -> plain eva
           /\ UNCHANGED <<cur, swap, queue, refc, ucnt, uord>>
           /\ Finish(Event("call", Ret(a, FOf[a], "none", <<a>>)))
 
-CallNow(a) == IF KindOf[a] = "unkey" THEN CallUnkey(a)
+CallNow(a) == IF KindOf[a] \in {"unkey", "unkeyraise"} THEN CallUnkey(a)
               ELSE IF EffAlg = "no" THEN CallNo(a) ELSE CallBounded(a)
 
 (* Re-entrancy.  The wrapper looks the key up, and only when it is neither resident nor archived does it run the  *)
@@ -301,7 +305,7 @@ CallNow(a) == IF KindOf[a] = "unkey" THEN CallUnkey(a)
 (* change); the second phase is CallNow(a) taken when a is the innermost pending call: the lookup parts of        *)
 (* CallNow find exactly what Enter found (no pending call shares a key, so nothing can have stored it meanwhile). *)
 Nesting  == "nest" \in OPS /\ MAXNEST > 0
-WouldRun(a) == KindOf[a] # "unkey" /\ mem[KeyOf[a]] = 0 /\ ~(Archived(cur) /\ Arch(cur)[KeyOf[a]] # 0)
+WouldRun(a) == KindOf[a] \notin {"unkey", "unkeyraise"} /\ mem[KeyOf[a]] = 0 /\ ~(Archived(cur) /\ Arch(cur)[KeyOf[a]] # 0)
 Pending  == {KeyOf[stack[x].a] : x \in 1..Len(stack)}
 Enter(a) == /\ Nesting /\ WouldRun(a) /\ KeyOf[a] \notin Pending
             /\ Len(stack) < MAXNEST /\ n + Len(stack) + 1 < DEPTH
@@ -394,8 +398,8 @@ NextMgmt ==
      \/ "arch_off" \in OPS /\ NARCH >= 1 /\ ArchOff
      \/ "arch_on" \in OPS /\ NARCH >= 1 /\ ArchOn
      \/ "set_archive" \in OPS /\ NARCH >= 2 /\ \E x \in 1..2 : SetArchive(x)
-     \/ "lookup" \in OPS /\ \E a \in ARGS : KindOf[a] # "unkey" /\ Lookup(a)
-     \/ "key" \in OPS /\ \E a \in ARGS : KindOf[a] # "unkey" /\ KeyQ(a)
+     \/ "lookup" \in OPS /\ \E a \in ARGS : KindOf[a] \notin {"unkey", "unkeyraise"} /\ Lookup(a)
+     \/ "key" \in OPS /\ \E a \in ARGS : KindOf[a] \notin {"unkey", "unkeyraise"} /\ KeyQ(a)
      \/ "info" \in OPS /\ InfoQ
 
 Next ==
